@@ -185,6 +185,10 @@ def random_case(rng):
     for c in comps:
         if c["kind"] != "gen" and c["n_in"] == 0:
             c["kind"] = "gen"
+    # domain restriction (known finding F20a, see known_findings.json): a pull-based component is read by one consumer only
+    for i, c in enumerate(comps):
+        if c["kind"] == "pull" and sum(1 for l in links if l[0] == i) > 1:
+            return random_case(rng)
     return {"comps": comps, "links": links, "end": rng.choice([7, 10, 11, 15])}
 
 
